@@ -364,3 +364,20 @@ func VerifSendRaw(c Conn, p []byte) error {
 	}
 	return ht.pushPacket(p)
 }
+
+// VerifNoiseHook, if set, is asked before every packet the transport writes
+// for extra packets to send in front of it (e.g. IGNORE or DEBUG messages).
+var VerifNoiseHook func(isClient bool, next []byte) [][]byte
+
+func verifBeforeWrite(t *transport, packet []byte) error {
+	f := VerifNoiseHook
+	if f == nil || len(packet) == 0 {
+		return nil
+	}
+	for _, p := range f(t.isClient, packet) {
+		if err := t.writer.writePacket(t.bufWriter, t.rand, p, t.strictMode); err != nil {
+			return err
+		}
+	}
+	return nil
+}
